@@ -22,6 +22,7 @@ import (
 	logstore "github.com/echovault/sugardb/internal/aof/log"
 	"github.com/echovault/sugardb/internal/aof/preamble"
 	"github.com/echovault/sugardb/internal/clock"
+	"github.com/echovault/sugardb/verifhook"
 	"log"
 	"sync"
 )
@@ -167,15 +168,18 @@ func (engine *Engine) RewriteLog() error {
 	engine.startRewriteFunc()
 	defer engine.finishRewriteFunc()
 
+	verifhook.Point("rewrite.begin")
 	// Create AOF preamble.
 	if err := engine.preambleStore.CreatePreamble(); err != nil {
 		return fmt.Errorf("rewrite log error: create preamble error: %+v", err)
 	}
 
+	verifhook.Point("rewrite.preamble-done")
 	// Truncate the AOF file.
 	if err := engine.appendStore.Truncate(); err != nil {
 		return fmt.Errorf("rewrite log error: create aof error: %+v", err)
 	}
+	verifhook.Point("rewrite.done")
 
 	return nil
 }
